@@ -35,6 +35,11 @@ type probeResult struct {
 	Instances               int      `json:"instances"`
 	Detail                  []string `json:"detail"`
 	Errors                  []string `json:"errors"`
+	// Sites: (operation, slot, label of the key that opens the field, class of
+	// the plaintext) for every sealed field of every row each operation of
+	// the systematic history wrote before the conversion - the behavioural
+	// counterpart of the sealing table harness/cmd/extract-c04 reads off the source
+	Sites [][4]string `json:"sites"`
 }
 
 type probeScript struct {
@@ -348,7 +353,52 @@ func runProbe() probeResult {
 	return res
 }
 
+// probeSites runs the systematic history (every operation once) on the built
+// code and reports, per operation, the sealed fields it wrote: which key
+// opens each and what the plaintext is.
+func probeSites(res *probeResult) {
+	seed := make([]byte, 32)
+	for i := range seed {
+		seed[i] = byte(201 + 3*i)
+	}
+	in := c04Systematic(seed, true)
+	in.Brute = false
+	cs, err := runMgr(in)
+	if err != nil {
+		res.Errors = append(res.Errors, "sites: "+err.Error())
+		return
+	}
+	seen := map[[4]string]bool{}
+	for i, op := range cs.In.Ops {
+		if op.K == "convert" {
+			break
+		}
+		if i >= len(cs.Obs) || !cs.Obs[i].OK {
+			continue
+		}
+		name := op.K
+		if op.K == "chpass" {
+			name = "chpass_public"
+			if op.Private {
+				name = "chpass_private"
+			}
+		}
+		for _, f := range cs.Obs[i].Facts {
+			t := [4]string{name, f.Slot, f.Key, f.Content}
+			if !seen[t] {
+				seen[t] = true
+				res.Sites = append(res.Sites, t)
+			}
+		}
+	}
+	if len(res.Sites) == 0 {
+		res.Errors = append(res.Errors, "sites: the systematic history wrote no sealed field")
+	}
+}
+
 func probeMain() {
-	b, _ := json.Marshal(runProbe())
+	res := runProbe()
+	probeSites(&res)
+	b, _ := json.Marshal(res)
 	os.Stdout.Write(append(b, '\n'))
 }
